@@ -208,6 +208,9 @@ func Shrink(ops []Op, fails func([]Op) bool) []Op {
 
 // HistoryLoop is the common driver: generate, run, compare, shrink, report.
 func HistoryLoop(rep *Report, rng *Rng, n int, gen func(r *Rng, i int) (RunCfg, []Op, string), classify func(m *Mismatch, ops []Op) string) {
+	if flagDeep {
+		n *= 4
+	}
 	for i := 0; i < n; i++ {
 		r := rng.Fork()
 		cfg, ops, desc := gen(r, i)
@@ -223,6 +226,33 @@ func HistoryLoop(rep *Report, rng *Rng, n int, gen func(r *Rng, i int) (RunCfg, 
 				k = 12
 			}
 			rep.Sample(map[string]interface{}{"config": desc, "ops_head": opsString(ops[:k]), "observations_head": obs[:min(len(obs), k)], "n_ops": len(ops)})
+		}
+		if m == nil && modelOn {
+			mm, n := ModelMismatch(cfg.FileBacked, ops, obs)
+			modelSteps += n
+			if mm != nil {
+				// a correspondence break that the property-level oracle did not see:
+				// shrink on the correspondence and report it as such
+				small := Shrink(ops, func(c []Op) bool {
+					_, o2, m2 := RunOps(cfg, c)
+					if m2 != nil {
+						return false
+					}
+					m3, _ := ModelMismatch(cfg.FileBacked, c, o2)
+					return m3 != nil
+				})
+				_, o2, _ := RunOps(cfg, small)
+				if m3, _ := ModelMismatch(cfg.FileBacked, small, o2); m3 != nil {
+					mm = m3
+				} else {
+					small = ops
+				}
+				rep.Violation("", true, map[string]interface{}{"config": desc, "ops": opsString(small), "mismatch": mm,
+					"broken": "correspondence between the implementation and the Coq model Store.run (the theorems of this property are about that model)"})
+				if len(rep.Violations) >= 3 {
+					return
+				}
+			}
 		}
 		if m == nil {
 			continue
@@ -241,6 +271,7 @@ func HistoryLoop(rep *Report, rng *Rng, n int, gen func(r *Rng, i int) (RunCfg, 
 			os.Exit(code)
 		}
 		_ = w
+		rep.Pending(map[string]interface{}{"config": desc, "ops": opsString(ops[:min(len(ops), m.Step+1)]), "mismatch": m})
 		kind := m.Kind
 		small := Shrink(ops[:min(len(ops), m.Step+1)], func(c []Op) bool {
 			_, _, m2 := RunOps(cfg, c)
@@ -261,6 +292,9 @@ func HistoryLoop(rep *Report, rng *Rng, n int, gen func(r *Rng, i int) (RunCfg, 
 		}
 	}
 }
+
+var modelOn bool
+var modelSteps int
 
 func sigOf(ops []Op) string {
 	var sb strings.Builder
